@@ -24,7 +24,8 @@ def run(tier):
     rec.assume(
         "a Report PDU body is carried opaquely by the library (never decoded), so lengths inside it are not judged",
         "msgSecurityParameters is a message layer of its own (serialized USM SEQUENCE inside an OCTET STRING): bytes after that SEQUENCE, with all enclosing lengths consistent, count as bytes after a message and must cause rejection; "
-        "extra elements inside other SEQUENCEs are not judged",
+        "extra elements inside other fixed-arity SEQUENCEs are not judged (the decoder never reads them); in a varbind list (SEQUENCE OF) a last element header whose declared contents lie outside the list must cause rejection",
+        "contextName is an element like any other: the PDU after it decodes as in the same message with an empty contextName, whatever the name contains",
     )
     rsx.run("c16", tier, rec)
     n = rec.counters["rsx_evaluations"]
